@@ -1012,26 +1012,72 @@ func litNames(fd *ast.FuncDecl) map[*ast.FuncLit]string {
 	return names
 }
 
-// the contract block of a literal: by name when it has one, else by ordinal
+// "lit X" headers: X is an ordinal ("lit 1"), a variable name ("lit doSub") or both ("lit doSub@1").  A block is bound to the
+// literal with that name if there is one (robust against inserting or removing other literals); a block whose name matches
+// no literal of the function any more falls back to its ordinal (robust against renaming the variable).
+func parseLitSub(sub string) (name string, ord int) {
+	x := strings.TrimSpace(strings.TrimPrefix(sub, "lit "))
+	ord = -1
+	if k := strings.Index(x, "@"); k >= 0 {
+		name = x[:k]
+		if n, err := strconv.Atoi(x[k+1:]); err == nil {
+			ord = n
+		}
+		return
+	}
+	if n, err := strconv.Atoi(x); err == nil {
+		return "", n
+	}
+	return x, -1
+}
+
+func (p *Program) litBlocksOf(owner *FuncInfo) []*Block {
+	var out []*Block
+	for _, b := range p.Contracts.Order {
+		if b.Key == owner.Key && strings.HasPrefix(b.Sub, "lit ") {
+			out = append(out, b)
+		}
+	}
+	return out
+}
+
+// the contract block of a literal
 func (p *Program) litBlock(owner *FuncInfo, lit *ast.FuncLit, ord int) *Block {
-	if n, ok := litNames(owner.Decl)[lit]; ok {
-		if b := p.Contracts.Get(owner.Key, "lit "+n); b != nil {
+	names := litNames(owner.Decl)
+	myName := names[lit]
+	present := map[string]bool{}
+	for _, n := range names {
+		present[n] = true
+	}
+	blocks := p.litBlocksOf(owner)
+	if myName != "" {
+		for _, b := range blocks {
+			if n, _ := parseLitSub(b.Sub); n == myName {
+				return b
+			}
+		}
+	}
+	for _, b := range blocks {
+		n, o := parseLitSub(b.Sub)
+		if o == ord && (n == "" || !present[n]) {
 			return b
 		}
 	}
-	return p.Contracts.Get(owner.Key, fmt.Sprintf("lit %d", ord))
+	return nil
 }
 
-// the literal a block header "lit X" refers to (X a name or an ordinal)
+// the literal a block header "lit X" refers to
 func litBySub(fi *FuncInfo, sub string) *ast.FuncLit {
-	x := strings.TrimSpace(strings.TrimPrefix(sub, "lit "))
-	if n, err := strconv.Atoi(x); err == nil {
-		return litByOrdinal(fi, n)
-	}
-	for fl, n := range litNames(fi.Decl) {
-		if n == x {
-			return fl
+	name, ord := parseLitSub(sub)
+	if name != "" {
+		for fl, n := range litNames(fi.Decl) {
+			if n == name {
+				return fl
+			}
 		}
+	}
+	if ord >= 0 {
+		return litByOrdinal(fi, ord)
 	}
 	return nil
 }
